@@ -537,7 +537,7 @@ Proof.
 Qed.
 
 (* The witness: three hits, columns 0 and 1 at time 0 and column 0 at time 1; grouped with v = 0 into
-   chords of sizes [2; 1]; the chord filter [[2; 2]] does not list (2, 1) but the chunk is admitted. *)
+   chords of sizes [2; 1]; the chord filter [[2; 2]] does not list (2, 1) but the chunk is passed. *)
 Definition witness_df : list note := [mkN 0 0 THit; mkN 1 0 THit; mkN 0 1 THit].
 Definition witness_cf : nfilter := mkNF 2 [[2; 2]] 4 false.
 
@@ -559,7 +559,7 @@ Proof.
   intros H. apply combos_specb_iff in H. vm_compute in H. discriminate.
 Qed.
 
-(* the same defect through the chord-stream template: primary 2, secondary 2 admits the chunk of sizes (2, 1) *)
+(* the same defect through the chord-stream template: primary 2, secondary 2 passes the chunk of sizes (2, 1) *)
 Theorem chord_stream_refuted :
   exists gs out,
     template_chord_stream gs 2 2 4 false true = Some out /\ ~ chord_stream_spec gs 2 2 4 false true out.
@@ -656,12 +656,669 @@ Qed.
 Lemma cart_singleton {A} : forall (l : list A), cart [l] = map (fun a => [a]) l.
 Proof. induction l; cbn in *; auto; try (f_equal; auto). Qed.
 
-Lemma cart_rev {A} : forall (ls : list (list A)), Permutation (cart (rev ls)) (map rev (cart ls)).
+Lemma cart_rev {A} : forall (ls : list (list A)), Permutation (cart (rev ls)) (map (@rev A) (cart ls)).
 Proof.
   induction ls as [|l ls IH]; cbn [rev]; [cbn; auto|].
   rewrite cart_app, cart_singleton.
   rewrite (Permutation_flat_map' _ _ _ IH). rewrite flat_map_map'.
   cbn [cart]. rewrite map_flat_map'.
-  etransitivity; [|apply flat_map_swap with (f := fun (a : A) (t : list A) => rev t ++ [a])].
-  apply Permutation_refl'. apply flat_map_ext. intros t. rewrite map_map. reflexivity.
+  assert (E1 : flat_map (fun x => map (@rev A) (map (cons x) (cart ls))) l
+               = flat_map (fun a => map (fun t => rev t ++ [a]) (cart ls)) l).
+  { apply flat_map_ext. intros a. rewrite map_map. reflexivity. }
+  rewrite E1.
+  assert (E2 : flat_map (fun x => map (app (rev x)) (map (fun a => [a]) l)) (cart ls)
+               = flat_map (fun t => map (fun a => rev t ++ [a]) l) (cart ls)).
+  { apply flat_map_ext. intros t. rewrite map_map. reflexivity. }
+  rewrite E2.
+  apply (flat_map_swap (fun (t : list A) (a : A) => rev t ++ [a])).
+Qed.
+
+(* np.meshgrid enumerates the same tuples as the cartesian product, in another order *)
+Lemma mesh_perm {A} : forall (chunk : list (list A)), Permutation (mesh chunk) (cart chunk).
+Proof.
+  intros chunk. unfold mesh.
+  set (hd2 := firstn 2 chunk). set (tl := skipn 2 chunk).
+  assert (Hk : (length chunk - 2)%nat = length tl) by (unfold tl; rewrite skipn_length; reflexivity).
+  rewrite Hk.
+  assert (Hc : chunk = hd2 ++ tl) by (unfold hd2, tl; rewrite firstn_skipn; reflexivity).
+  replace (cart chunk) with (cart (hd2 ++ tl)) by (rewrite <- Hc; reflexivity). rewrite !cart_app.
+  rewrite map_flat_map'.
+  assert (E1 : flat_map (fun x => map (fun t => skipn (length tl) t ++ rev (firstn (length tl) t))
+                                      (map (app x) (cart hd2))) (cart (rev tl))
+               = flat_map (fun ta => map (fun tb => tb ++ rev ta) (cart hd2)) (cart (rev tl))).
+  { apply flat_map_ext_in'. intros ta Hta. rewrite map_map. apply map_ext. intros tb.
+    apply cart_length in Hta. rewrite rev_length in Hta.
+    rewrite skipn_app, firstn_app. rewrite Hta, Nat.sub_diag. cbn [skipn firstn].
+    rewrite <- Hta. rewrite skipn_all, firstn_all, app_nil_r. reflexivity. }
+  rewrite E1.
+  assert (E2 : flat_map (fun ta => map (fun tb => tb ++ rev ta) (cart hd2)) (cart (rev tl))
+               = flat_map (fun s => map (fun tb => tb ++ s) (cart hd2)) (map (@rev A) (cart (rev tl))))
+    by (rewrite flat_map_map'; reflexivity).
+  rewrite E2.
+  assert (P : Permutation (map (@rev A) (cart (rev tl))) (cart tl)).
+  { symmetry. pose proof (cart_rev (rev tl)) as H. rewrite rev_involutive in H. exact H. }
+  rewrite (Permutation_flat_map' _ _ _ P).
+  apply (flat_map_swap (fun (s tb : list A) => tb ++ s)).
+Qed.
+
+(* ================================================================ chunks = runs of consecutive groups *)
+Lemma chunks_windows {A} : forall (n : nat) (l : list A), (1 <= n)%nat -> chunks n l = windows n l.
+Proof.
+  intros n l Hn. unfold chunks. induction l as [|x l IH].
+  - replace (length (@nil A) + 1 - n)%nat with 0%nat by (cbn [length]; lia). reflexivity.
+  - cbn [windows length]. destruct (n <=? S (length l))%nat eqn:E.
+    + apply Nat.leb_le in E.
+      replace (S (length l) + 1 - n)%nat with (S (length l + 1 - n)) by lia.
+      cbn [seq map skipn]. f_equal. rewrite <- seq_shift, map_map. exact IH.
+    + apply Nat.leb_gt in E. replace (S (length l) + 1 - n)%nat with 0%nat by lia. reflexivity.
+Qed.
+
+Lemma windows_length {A} : forall (n : nat) (l : list A) w, In w (windows n l) -> length w = n.
+Proof.
+  induction l as [|x l IH]; cbn [windows]; intros w H; [destruct H|].
+  destruct (n <=? length (x :: l))%nat eqn:E; [|destruct H].
+  apply Nat.leb_le in E. destruct H as [<-|H]; auto. rewrite firstn_length. lia.
+Qed.
+
+Lemma windows_incl {A} : forall (n : nat) (l : list A) w x, In w (windows n l) -> In x w -> In x l.
+Proof.
+  induction l as [|y l IH]; cbn [windows]; intros w x H Hx; [destruct H|].
+  destruct (n <=? length (y :: l))%nat; [|destruct H].
+  destruct H as [<-|H]; [eapply In_firstn'; eauto|]. right. eapply IH; eauto.
+Qed.
+
+(* ================================================================ the filters, inside the domain *)
+Definition in_range (k : Z) (row : list Z) : Prop := Forall (fun c => 0 <= c < k) row.
+
+Lemma row_hash_bound k : 1 <= k -> forall row, in_range k row ->
+  0 <= row_hash k row < k ^ Z.of_nat (length row).
+Proof.
+  intros Hk. induction row as [|c r IH]; intros Hr; cbn [row_hash length].
+  - cbn. lia.
+  - inversion Hr; subst. specialize (IH H2).
+    rewrite Nat2Z.inj_succ, Z.pow_succ_r by lia.
+    assert (0 < k ^ Z.of_nat (length r)) by (apply Z.pow_pos_nonneg; lia). nia.
+Qed.
+
+Lemma row_hash_inj k : 1 <= k -> forall a b, length a = length b -> in_range k a -> in_range k b ->
+  row_hash k a = row_hash k b -> a = b.
+Proof.
+  intros Hk. induction a as [|c a IH]; destruct b as [|d b]; cbn [length]; intros Hl Ha Hb Hh; try discriminate; auto.
+  inversion Hl as [Hl']. inversion Ha; subst. inversion Hb; subst.
+  cbn [row_hash] in Hh. rewrite <- Hl' in Hh.
+  pose proof (row_hash_bound k Hk a H2) as Ba. pose proof (row_hash_bound k Hk b H4) as Bb.
+  rewrite <- Hl' in Bb.
+  assert (0 < k ^ Z.of_nat (length a)) by (apply Z.pow_pos_nonneg; lia).
+  assert (c = d) by nia. subst d. f_equal. apply IH; auto. lia.
+Qed.
+
+Lemma forall2b_eqb_eq : forall a b, forall2b Z.eqb a b = true <-> a = b.
+Proof.
+  induction a as [|x a IH]; destruct b as [|y b]; cbn; try (split; congruence).
+  rewrite andb_true_iff, Z.eqb_eq, IH. split; [intros [-> ->]; reflexivity | intros H; inversion H; auto].
+Qed.
+
+Lemma all2_forall2b {A B} (f : A -> B -> bool) : forall a b, length a = length b -> all2 f a b = forall2b f a b.
+Proof. induction a; destruct b; cbn; intros H; try discriminate; auto. rewrite IHa; auto. Qed.
+
+Lemma existsb_ext_in' {A} (f g : A -> bool) : forall l, (forall x, In x l -> f x = g x) -> existsb f l = existsb g l.
+Proof. induction l; cbn; intros H; auto. rewrite (H a) by auto. rewrite IHl; auto. Qed.
+
+Lemma map_ext_in' {A B} (f g : A -> B) : forall l, (forall x, In x l -> f x = g x) -> map f l = map g l.
+Proof. induction l; cbn; intros H; auto. rewrite (H a) by auto. rewrite IHl; auto. Qed.
+
+Lemma bool_eq_iff (a b : bool) : (a = true <-> b = true) -> a = b.
+Proof. destruct a, b; intuition. Qed.
+
+Lemma bcast_row_id size row : length row = size -> bcast_row size row = row.
+Proof. intros H. unfold bcast_row. rewrite H, Nat.eqb_refl. reflexivity. Qed.
+
+Lemma bcast_ok_refl size : bcast_ok size size = true.
+Proof. unfold bcast_ok. rewrite Nat.eqb_refl. reflexivity. Qed.
+
+Lemma forallb_in_range k row : forallb (in_keys k) row = true -> in_range k row.
+Proof.
+  intros H. apply Forall_forall. intros c Hc. rewrite forallb_forall in H. specialize (H c Hc).
+  unfold in_keys in H. apply andb_true_iff in H. destruct H as [H1 H2].
+  apply Z.leb_le in H1. apply Z.ltb_lt in H2. lia.
+Qed.
+
+Lemma existsb_exists' {A B} (f : B -> bool) (g : A -> B) : forall l, existsb f (map g l) = existsb (fun x => f (g x)) l.
+Proof. induction l; cbn; auto. rewrite IHl; auto. Qed.
+
+(* inside the domain the column hash is injective: PtnFilterCombo.filter is row membership *)
+Lemma combo_filter_spec f size data :
+  f_w f = size -> 1 <= f_keys f ->
+  (forall row, In row (f_ar f) -> length row = size /\ in_range (f_keys f) row) ->
+  (forall d, In d data -> length d = size /\ in_range (f_keys f) d) ->
+  combo_filter f size data
+  = Some (map (fun d => xorb (f_inv f) (existsb (forall2b Z.eqb d) (f_ar f))) data).
+Proof.
+  intros Hw Hk Hrows Hdata. unfold combo_filter. rewrite Hw, bcast_ok_refl. f_equal.
+  apply map_ext_in'. intros d Hd. f_equal. destruct (Hdata d Hd) as [Hld Hrd].
+  unfold memZ. rewrite existsb_exists'.
+  apply existsb_ext_in'. intros row Hrow. destruct (Hrows row Hrow) as [Hlr Hrr].
+  rewrite bcast_row_id by auto. apply bool_eq_iff. rewrite Z.eqb_eq, forall2b_eqb_eq. split.
+  - apply row_hash_inj; auto. congruence.
+  - intros ->. reflexivity.
+Qed.
+
+Lemma type_filter_spec f size data :
+  t_w f = size -> (forall row, In row (t_ar f) -> length row = size) ->
+  (forall d, In d data -> length d = size) ->
+  type_filter f size data
+  = Some (map (fun d => xorb (t_inv f) (existsb (forall2b subclassb d) (t_ar f))) data).
+Proof.
+  intros Hw Hrows Hdata. unfold type_filter. destruct data as [|d0 data']; [reflexivity|].
+  rewrite Hw, Nat.ltb_irrefl. cbn [andb]. f_equal.
+  apply map_ext_in'. intros d Hd. f_equal. apply existsb_ext_in'. intros row Hrow.
+  apply all2_forall2b. rewrite (Hdata d Hd), (Hrows row Hrow). reflexivity.
+Qed.
+
+Lemma omap_all_some {A B} (f : A -> option B) (g : A -> B) : forall l,
+  (forall x, In x l -> f x = Some (g x)) -> omap f l = Some (map g l).
+Proof.
+  induction l as [|x l IH]; cbn; intros H; auto.
+  rewrite (H x) by auto. rewrite IH; auto.
+Qed.
+
+Lemma mask_select_map_filter {A} (p : A -> bool) : forall l, mask_select l (map p l) = filter p l.
+Proof. induction l; cbn; auto. destruct (p a); rewrite IHl; auto. Qed.
+
+Lemma filter_filter' {A} (p q : A -> bool) : forall l, filter q (filter p l) = filter (fun x => p x && q x) l.
+Proof. induction l; cbn; auto. destruct (p a); cbn; [destruct (q a)|]; rewrite IHl; auto. Qed.
+
+Lemma filter_flagged {A} (p : A -> bool) : forall l, map fst (filter snd (map (fun c => (c, p c)) l)) = filter p l.
+Proof. induction l; cbn; auto. destruct (p a); cbn; rewrite IHl; auto. Qed.
+
+Lemma concat_filter_nonempty {A} : forall (L : list (list A)),
+  concat (filter (fun c => negb (length c =? 0)%nat) L) = concat L.
+Proof. induction L as [|c L IH]; cbn; auto. destruct c; cbn; rewrite IH; auto. Qed.
+
+Lemma flat_map_filter {A B} (F : A -> list B) (p : A -> bool) : forall l,
+  flat_map F (filter p l) = flat_map (fun c => if p c then F c else []) l.
+Proof. induction l; cbn; auto. destruct (p a); cbn; rewrite IHl; auto. Qed.
+
+Lemma flat_map_perm_ext {A B} (f g : A -> list B) : forall l,
+  (forall x, In x l -> Permutation (f x) (g x)) -> Permutation (flat_map f l) (flat_map g l).
+Proof.
+  induction l; cbn; intros H; auto. apply Permutation_app; [apply H; auto | apply IHl; auto].
+Qed.
+
+Lemma concat_map_flat_map {A B} (f : A -> list B) : forall (L : list (list A)),
+  concat (map (flat_map f) L) = flat_map f (concat L).
+Proof. induction L; cbn; auto. rewrite flat_map_app, IHL; auto. Qed.
+
+Lemma pairs_of_windows {A} : forall (row : list A),
+  pairs_of row = map (fun w => firstn 2 (skipn w row)) (seq 0 (length row - 1)).
+Proof.
+  induction row as [|x row IH]; [reflexivity|].
+  destruct row as [|y r]; [reflexivity|].
+  change (pairs_of (x :: y :: r)) with ([x; y] :: pairs_of (y :: r)). rewrite IH.
+  cbn [length]. replace (S (S (length r)) - 1)%nat with (S (length r)) by lia.
+  replace (S (length r) - 1)%nat with (length r) by lia.
+  cbn [seq map skipn firstn]. f_equal. rewrite <- seq_shift, map_map. reflexivity.
+Qed.
+
+Lemma fold_pairs_perm {A} size : forall (ar : list (list A)),
+  (forall row, In row ar -> length row = size) ->
+  Permutation (fold_pairs size ar) (flat_map pairs_of ar).
+Proof.
+  intros ar H. unfold fold_pairs.
+  rewrite (flat_map_swap (fun (w : nat) (row : list A) => firstn 2 (skipn w row))).
+  apply Permutation_refl'. apply flat_map_ext_in'. intros row Hrow.
+  rewrite pairs_of_windows, (H row Hrow). reflexivity.
+Qed.
+
+(* ================================================================ what combinations() computes *)
+Definition sizes_of (chunk : list (list note)) : list Z := map (fun g => Z.of_nat (length g)) chunk.
+
+(* the chord test of the code as it is: some position where a filter row equals the chunk's sizes *)
+Definition chord_passes (cf : option nfilter) (chunk : list (list note)) : bool :=
+  match cf with
+  | None => true
+  | Some f => xorb (f_inv f) (existsb (fun row => any2 Z.eqb row (sizes_of chunk)) (f_ar f))
+  end.
+
+Definition passed_seqs (adm : list (list note) -> bool) (groups : list (list note)) (size : nat)
+           (kf : option nfilter) (tf : option tfilter) : list (list note) :=
+  flat_map (fun chunk =>
+      if adm chunk then filter (fun s => cols_allowed kf s && types_allowed tf s) (cart chunk) else [])
+    (windows size groups).
+
+Lemma allowed_is_passed groups size cf kf tf :
+  allowed_seqs groups size cf kf tf = passed_seqs (chord_allowed cf) groups size kf tf.
+Proof. reflexivity. Qed.
+
+Lemma wf_combos_parts groups size cf kf tf :
+  wf_combos groups size cf kf tf = true ->
+  (1 <= size)%nat /\ wf_nfilter_w size cf = true /\ wf_nfilter_w size kf = true /\
+  match tf with None => True
+  | Some f => t_w f = size /\ forall row, In row (t_ar f) -> length row = size end /\
+  match kf with None => True
+  | Some f => 1 <= f_keys f /\ (forall row, In row (f_ar f) -> in_range (f_keys f) row) /\
+              (forall g r, In g groups -> In r g -> 0 <= ncol r < f_keys f) end.
+Proof.
+  unfold wf_combos. rewrite !andb_true_iff. intros [[[[H1 H2] H3] H4] H5].
+  split; [apply Nat.leb_le; auto|]. split; auto. split; auto. split.
+  - destruct tf as [f|]; auto. apply andb_true_iff in H4. destruct H4 as [Ha Hb].
+    split; [apply Nat.eqb_eq; auto|]. intros row Hrow. rewrite forallb_forall in Hb.
+    apply Nat.eqb_eq. auto.
+  - destruct kf as [f|]; auto. rewrite !andb_true_iff in H5. destruct H5 as [[Ha Hb] Hc].
+    split; [apply Z.leb_le; auto|]. split.
+    + intros row Hrow. rewrite forallb_forall in Hb. apply forallb_in_range. auto.
+    + intros g r Hg Hr. rewrite forallb_forall in Hc. specialize (Hc g Hg).
+      rewrite forallb_forall in Hc. specialize (Hc r Hr). unfold in_keys in Hc.
+      apply andb_true_iff in Hc. destruct Hc as [Hc1 Hc2]. apply Z.leb_le in Hc1. apply Z.ltb_lt in Hc2. lia.
+Qed.
+
+Lemma wf_nfilter_w_parts size f : wf_nfilter_w size (Some f) = true ->
+  f_w f = size /\ forall row, In row (f_ar f) -> length row = size.
+Proof.
+  cbn. rewrite andb_true_iff. intros [Ha Hb]. split; [apply Nat.eqb_eq; auto|].
+  intros row Hrow. rewrite forallb_forall in Hb. apply Nat.eqb_eq. auto.
+Qed.
+
+Lemma Forall2_In_member {A} : forall (s : list A) (chunk : list (list A)) r,
+  Forall2 (@In A) s chunk -> In r s -> exists g, In g chunk /\ In r g.
+Proof.
+  induction 1; intros Hr; [destruct Hr|].
+  destruct Hr as [<-|Hr]; [exists y; split; [left|]; auto|].
+  destruct (IHForall2 Hr) as [g [Hg Hrg]]. exists g. split; [right|]; auto.
+Qed.
+
+Lemma filter_true' {A} (p : A -> bool) : forall l, (forall x, p x = true) -> filter p l = l.
+Proof. induction l; cbn; intros H; auto. rewrite H, IHl; auto. Qed.
+
+(* What combinations() returns inside the domain, for any chord test [ct] that behaves as [adm] on the
+   runs of [size] consecutive groups: the filtered cartesian products of the passed runs. *)
+Theorem combos_with_char ct adm groups size ms2 cf kf tf :
+  wf_combos groups size cf kf tf = true ->
+  (forall chunk, In chunk (windows size groups) ->
+     match cf with None => adm chunk = true | Some f => ct f (sizes_of chunk) = Some (adm chunk) end) ->
+  exists out, combinations_with ct groups size ms2 cf kf tf = Some out /\
+              Permutation (concat out) (reported ms2 (passed_seqs adm groups size kf tf)).
+Proof.
+  intros Hwf Hadm. destruct (wf_combos_parts _ _ _ _ _ Hwf) as [Hs [Hcf [Hkf [Htf Hk]]]].
+  unfold combinations_with. rewrite (chunks_windows size groups Hs).
+  assert (HlenW : forall chunk s, In chunk (windows size groups) -> In s (mesh chunk) -> length s = size).
+  { intros chunk s Hc Hin. apply (Permutation_in _ (mesh_perm chunk)) in Hin. apply cart_length in Hin.
+    rewrite Hin. eapply windows_length; eauto. }
+  assert (HmemW : forall chunk s r, In chunk (windows size groups) -> In s (mesh chunk) -> In r s ->
+                                    exists g, In g groups /\ In r g).
+  { intros chunk s r Hc Hin Hr. apply (Permutation_in _ (mesh_perm chunk)) in Hin. apply cart_In in Hin.
+    destruct (Forall2_In_member s chunk r Hin Hr) as [g [Hg Hrg]]. exists g. split; auto.
+    eapply windows_incl; eauto. }
+  set (W := windows size groups) in *.
+  (* the chord filter over the chunks *)
+  rewrite (omap_all_some _ (fun chunk => (chunk, adm chunk))).
+  2:{ intros chunk Hc. specialize (Hadm chunk Hc). destruct cf as [f|].
+      - fold (sizes_of chunk). rewrite Hadm. reflexivity.
+      - rewrite Hadm. reflexivity. }
+  cbn [opt_bind]. rewrite filter_flagged.
+  (* meshgrid and the column / type filters over the passed chunks *)
+  set (pq := fun s => cols_allowed kf s && types_allowed tf s).
+  rewrite (omap_all_some _ (fun chunk => filter pq (mesh chunk))).
+  2:{ intros chunk Hc. apply filter_In in Hc. destruct Hc as [Hc _]. cbv beta zeta.
+      assert (E1 : match kf with
+                   | None => Some (mesh chunk)
+                   | Some f => apply_mask (mesh chunk) (combo_filter f size (map (map ncol) (mesh chunk)))
+                   end = Some (filter (cols_allowed kf) (mesh chunk))).
+      { destruct kf as [f|].
+        - destruct (wf_nfilter_w_parts _ _ Hkf) as [Hw Hrl]. destruct Hk as [Hk1 [Hk2 Hk3]].
+          rewrite (combo_filter_spec f size); auto.
+          + cbn [apply_mask]. rewrite map_map. unfold cols_allowed. rewrite mask_select_map_filter. reflexivity.
+          + intros d Hd. apply in_map_iff in Hd. destruct Hd as [s [<- Hs']].
+            split; [rewrite map_length; eapply HlenW; eauto|].
+            apply Forall_forall. intros c Hc'. apply in_map_iff in Hc'. destruct Hc' as [r [<- Hr]].
+            destruct (HmemW chunk s r Hc Hs' Hr) as [g [Hg Hrg]]. apply (Hk3 g r); auto.
+        - rewrite filter_true'; auto. }
+      rewrite E1. cbn [opt_bind].
+      set (combos1 := filter (cols_allowed kf) (mesh chunk)).
+      assert (E2 : match tf with
+                   | None => Some combos1
+                   | Some f => apply_mask combos1 (type_filter f size (map (map nty) combos1))
+                   end = Some (filter (types_allowed tf) combos1)).
+      { destruct tf as [f|].
+        - destruct Htf as [Hw Hrl]. rewrite (type_filter_spec f size); auto.
+          + cbn [apply_mask]. rewrite map_map. unfold types_allowed. rewrite mask_select_map_filter. reflexivity.
+          + intros d Hd. apply in_map_iff in Hd. destruct Hd as [s [<- Hs']].
+            rewrite map_length. unfold combos1 in Hs'. apply filter_In in Hs'. destruct Hs' as [Hs' _].
+            eapply HlenW; eauto.
+        - rewrite filter_true'; auto. }
+      rewrite E2. unfold combos1. rewrite filter_filter'. reflexivity. }
+  cbn [opt_bind]. eexists; split; [reflexivity|].
+  set (L := map (fun chunk => filter pq (mesh chunk)) (filter adm W)).
+  assert (HL : Permutation (concat L) (passed_seqs adm groups size kf tf)).
+  { unfold L, passed_seqs. fold W. rewrite <- flat_map_concat_map. rewrite flat_map_filter.
+    apply flat_map_perm_ext. intros chunk Hc. destruct (adm chunk); auto.
+    apply Permutation_filter'. apply mesh_perm. }
+  destruct ms2; unfold reported.
+  - transitivity (concat (map (flat_map (@pairs_of note)) (filter (fun c => negb (length c =? 0)%nat) L))).
+    + rewrite <- !flat_map_concat_map. apply flat_map_perm_ext. intros ar Har.
+      apply fold_pairs_perm. intros row Hrow.
+      apply filter_In in Har. destruct Har as [Har _]. unfold L in Har. apply in_map_iff in Har.
+      destruct Har as [chunk [<- Hc]]. apply filter_In in Hc. destruct Hc as [Hc _].
+      apply filter_In in Hrow. destruct Hrow as [Hrow _]. eapply HlenW; eauto.
+    + rewrite concat_map_flat_map, concat_filter_nonempty. apply Permutation_flat_map'. exact HL.
+  - rewrite concat_filter_nonempty. exact HL.
+Qed.
+
+Lemma sizes_of_length chunk : length (sizes_of chunk) = length chunk.
+Proof. unfold sizes_of. apply map_length. Qed.
+
+(* the code as it is *)
+Theorem combos_char groups size ms2 cf kf tf :
+  wf_combos groups size cf kf tf = true ->
+  exists out, combinations groups size ms2 cf kf tf = Some out /\
+              Permutation (concat out) (reported ms2 (passed_seqs (chord_passes cf) groups size kf tf)).
+Proof.
+  intros Hwf. apply combos_with_char; auto.
+  intros chunk Hc. destruct cf as [f|]; [|reflexivity].
+  destruct (wf_combos_parts _ _ _ _ _ Hwf) as [_ [Hcf _]].
+  destruct (wf_nfilter_w_parts _ _ Hcf) as [Hw Hrl].
+  unfold chord_filter. rewrite sizes_of_length, (windows_length _ _ _ Hc), Hw, bcast_ok_refl.
+  cbn [chord_passes]. f_equal. f_equal. apply existsb_ext_in'. intros row Hrow.
+  rewrite bcast_row_id; auto.
+Qed.
+
+(* the guard that excludes the defect class: on every run of [size] consecutive groups the element-wise
+   test gives the same answer as row membership *)
+Definition chord_guard (cf : option nfilter) (size : nat) (groups : list (list note)) : bool :=
+  forallb (fun chunk => Bool.eqb (chord_passes cf chunk) (chord_allowed cf chunk)) (windows size groups).
+
+Theorem combos_exact_guarded groups size ms2 cf kf tf :
+  wf_combos groups size cf kf tf = true -> chord_guard cf size groups = true ->
+  exists out, combinations groups size ms2 cf kf tf = Some out /\
+              combos_spec groups size ms2 cf kf tf out.
+Proof.
+  intros Hwf Hg. destruct (combos_char groups size ms2 cf kf tf Hwf) as [out [H1 H2]].
+  exists out. split; auto. unfold combos_spec. rewrite allowed_is_passed.
+  replace (passed_seqs (chord_allowed cf) groups size kf tf)
+    with (passed_seqs (chord_passes cf) groups size kf tf); auto.
+  unfold passed_seqs. apply flat_map_ext_in'. intros chunk Hc.
+  unfold chord_guard in Hg. rewrite forallb_forall in Hg. specialize (Hg chunk Hc).
+  apply eqb_prop in Hg. rewrite Hg. reflexivity.
+Qed.
+
+(* without a chord-size filter the combinations are exactly the allowed ones *)
+Theorem combos_exact_no_chord_filter groups size ms2 kf tf :
+  wf_combos groups size None kf tf = true ->
+  exists out, combinations groups size ms2 None kf tf = Some out /\
+              combos_spec groups size ms2 None kf tf out.
+Proof.
+  intros Hwf. apply combos_exact_guarded; auto.
+  unfold chord_guard. apply forallb_forall. intros; reflexivity.
+Qed.
+
+(* with the repaired chord test (row membership) the property holds for every filter *)
+Theorem combos_exact_repaired groups size ms2 cf kf tf :
+  wf_combos groups size cf kf tf = true ->
+  exists out, combinations_with chord_filter_rows groups size ms2 cf kf tf = Some out /\
+              combos_spec groups size ms2 cf kf tf out.
+Proof.
+  intros Hwf. unfold combos_spec. rewrite allowed_is_passed. apply combos_with_char; auto.
+  intros chunk Hc. destruct cf as [f|]; [|reflexivity].
+  destruct (wf_combos_parts _ _ _ _ _ Hwf) as [_ [Hcf _]].
+  destruct (wf_nfilter_w_parts _ _ Hcf) as [Hw Hrl].
+  unfold chord_filter_rows. rewrite sizes_of_length, (windows_length _ _ _ Hc), Hw, bcast_ok_refl.
+  cbn [chord_allowed]. f_equal. f_equal. apply existsb_ext_in'. intros row Hrow.
+  rewrite bcast_row_id; auto. apply bool_eq_iff.
+  rewrite (list_eqb_eq Z.eqb Z.eqb_eq), forall2b_eqb_eq. unfold sizes_of. split; congruence.
+Qed.
+
+(* the declarative reading of the expected list: a sequence is listed iff it takes one note from each
+   group of an allowed run of consecutive groups and passes the column and type filters *)
+Theorem allowed_seqs_In groups size cf kf tf s :
+  In s (allowed_seqs groups size cf kf tf) <->
+  exists chunk, In chunk (windows size groups) /\ chord_allowed cf chunk = true /\
+                Forall2 (@In note) s chunk /\ cols_allowed kf s = true /\ types_allowed tf s = true.
+Proof.
+  unfold allowed_seqs. rewrite in_flat_map. split.
+  - intros [chunk [Hc H]]. exists chunk. destruct (chord_allowed cf chunk); [|destruct H].
+    apply filter_In in H. destruct H as [H1 H2]. apply andb_true_iff in H2. destruct H2.
+    repeat split; auto. apply cart_In; auto.
+  - intros [chunk [Hc [Ha [Hf [Hk Ht]]]]]. exists chunk. split; auto. rewrite Ha.
+    apply filter_In. split; [apply cart_In; auto|]. rewrite Hk, Ht. reflexivity.
+Qed.
+
+(* ================================================================ the filter constructors' options *)
+Lemma lex_cmp_eq : forall a b, lex_cmp a b = Eq -> a = b.
+Proof.
+  induction a as [|x a IH]; destruct b as [|y b]; cbn; try discriminate; auto.
+  destruct (x ?= y) eqn:E; try discriminate. intros H. apply Z.compare_eq in E. subst. f_equal; auto.
+Qed.
+
+Lemma uinsert_In r : forall l x, In x (uinsert r l) <-> x = r \/ In x l.
+Proof.
+  induction l as [|y l IH]; cbn; intros x; [intuition|].
+  destruct (lex_cmp r y) eqn:E; cbn.
+  - apply lex_cmp_eq in E. subst. intuition.
+  - intuition.
+  - rewrite IH. intuition.
+Qed.
+
+(* np.unique(axis=0) keeps exactly the rows it was given *)
+Theorem unique_rows_In : forall l x, In x (unique_rows l) <-> In x l.
+Proof.
+  unfold unique_rows. induction l as [|r l IH]; cbn; intros x; [tauto|].
+  rewrite uinsert_In, IH. intuition.
+Qed.
+
+Lemma zrange_n_In : forall n lo d, In d (zrange_n lo n) <-> lo <= d < lo + Z.of_nat n.
+Proof.
+  induction n as [|n IH]; intros lo d; cbn [zrange_n In].
+  - cbn. lia.
+  - rewrite IH. rewrite Nat2Z.inj_succ. lia.
+Qed.
+Lemma zrange_In lo hi d : In d (zrange lo hi) <-> lo <= d < hi.
+Proof. unfold zrange. rewrite zrange_n_In. lia. Qed.
+
+(* HMIRROR / VMIRROR / MIRROR *)
+Theorem hmirror_In keys rows r : In r (hmirror keys rows) <-> hmirror_rows keys rows r.
+Proof.
+  unfold hmirror, hmirror_rows. rewrite in_app_iff, in_map_iff. split; intros [H|[b [H1 H2]]]; auto.
+  - right. exists b. split; auto.
+  - right. exists b. split; auto.
+Qed.
+Theorem vmirror_In {A} (rows : list (list A)) r : In r (vmirror rows) <-> vmirror_rows rows r.
+Proof.
+  unfold vmirror, vmirror_rows. rewrite in_app_iff, in_map_iff. split; intros [H|[b [H1 H2]]]; auto.
+  - right. exists b. split; auto.
+  - right. exists b. split; auto.
+Qed.
+
+(* ANY_ORDER: every listed row is a reordering of a base row, and every reordering is listed *)
+Lemma insert_all_In {A} (x : A) : forall l p, In p (insert_all x l) <-> exists l1 l2, l = l1 ++ l2 /\ p = l1 ++ x :: l2.
+Proof.
+  induction l as [|y l IH]; cbn; intros p.
+  - split.
+    + intros [<-|[]]. exists [], []. auto.
+    + intros [l1 [l2 [H ->]]]. symmetry in H. apply app_eq_nil in H. destruct H; subst. auto.
+  - split.
+    + intros [<-|H]; [exists [], (y :: l); auto|].
+      apply in_map_iff in H. destruct H as [q [<- H]]. apply IH in H. destruct H as [l1 [l2 [-> ->]]].
+      exists (y :: l1), l2. auto.
+    + intros [l1 [l2 [H ->]]]. destruct l1 as [|z l1]; cbn in *.
+      * left. subst. reflexivity.
+      * inversion H; subst. right. apply in_map. apply IH. eauto.
+Qed.
+
+Theorem perms_In {A} : forall (l p : list A), In p (perms l) <-> Permutation l p.
+Proof.
+  induction l as [|x l IH]; cbn; intros p.
+  - split; [intros [<-|[]]; constructor | intros H; apply Permutation_nil in H; auto].
+  - rewrite in_flat_map. split.
+    + intros [q [Hq Hp]]. apply IH in Hq. apply insert_all_In in Hp. destruct Hp as [l1 [l2 [-> ->]]].
+      rewrite <- Permutation_middle. constructor; auto.
+    + intros H. assert (Hin : In x p) by (eapply Permutation_in; eauto; left; auto).
+      apply in_split in Hin. destruct Hin as [l1 [l2 ->]].
+      exists (l1 ++ l2). split; [apply IH; eapply Permutation_cons_app_inv; eauto|].
+      apply insert_all_In. eauto.
+Qed.
+
+Theorem any_order_In {A} (rows : list (list A)) r : In r (flat_map perms rows) <-> any_order_rows rows r.
+Proof.
+  unfold any_order_rows. rewrite in_flat_map. split; intros [b [H1 H2]]; exists b; split; auto; apply perms_In; auto.
+Qed.
+
+(* AND_LOWER / AND_HIGHER: the added rows are exactly the boxes 1..max_k, resp. min_k..keys *)
+Lemma cart_ranges_In (lo hi : Z -> Z) : forall bounds r,
+  In r (cart (map (fun b => zrange (lo b) (hi b)) bounds)) <-> Forall2 (fun c b => lo b <= c < hi b) r bounds.
+Proof.
+  intros bounds r. rewrite cart_In. split.
+  - revert r. induction bounds as [|b bounds IH]; intros r H; inversion H; subst; constructor; auto.
+    apply zrange_In; auto.
+  - revert r. induction bounds as [|b bounds IH]; intros r H; inversion H; subst; constructor; auto.
+    apply zrange_In; auto.
+Qed.
+
+Lemma Forall2_impl' {A B} (P Q : A -> B -> Prop) : (forall a b, P a b -> Q a b) ->
+  forall l l', Forall2 P l l' -> Forall2 Q l l'.
+Proof. intros H. induction 1; constructor; auto. Qed.
+
+Theorem and_lower_In rows r :
+  In r (rows ++ cart (map (fun i => zrange 1 (i + 1)) (colwise Z.max rows))) <-> and_lower_rows rows r.
+Proof.
+  unfold and_lower_rows. rewrite in_app_iff.
+  rewrite (cart_ranges_In (fun _ => 1) (fun i => i + 1)).
+  split; (intros [H|H]; [left; auto|right]); (eapply Forall2_impl'; [|exact H]; cbn; intros; lia).
+Qed.
+
+Theorem and_higher_In keys rows r :
+  In r (rows ++ cart (map (fun i => zrange i (keys + 1)) (colwise Z.min rows))) <-> and_higher_rows keys rows r.
+Proof.
+  unfold and_higher_rows. rewrite in_app_iff.
+  rewrite (cart_ranges_In (fun i => i) (fun _ => keys + 1)).
+  split; (intros [H|H]; [left; auto|right]); (eapply Forall2_impl'; [|exact H]; cbn; intros; lia).
+Qed.
+
+(* REPEAT: every translate of a base row that stays within 0..keys-1 *)
+Lemma fold_min_facts : forall r acc, let m := fold_left Z.min r acc in
+  m <= acc /\ (forall c, In c r -> m <= c) /\ (m = acc \/ In m r).
+Proof.
+  induction r as [|c r IH]; intros acc; cbn.
+  - split; [lia|]. split; [tauto|auto].
+  - destruct (IH (Z.min acc c)) as [H1 [H2 H3]]. split; [lia|]. split.
+    + intros x [<-|Hx]; [lia|auto].
+    + destruct H3 as [H3|H3]; [|right; right; exact H3].
+      destruct (Z.min_spec acc c) as [[_ E]|[_ E]]; [left|right; left; symmetry]; (etransitivity; [exact H3|exact E]).
+Qed.
+Lemma fold_max_facts : forall r acc, let m := fold_left Z.max r acc in
+  acc <= m /\ (forall c, In c r -> c <= m) /\ (m = acc \/ In m r).
+Proof.
+  induction r as [|c r IH]; intros acc; cbn.
+  - split; [lia|]. split; [tauto|auto].
+  - destruct (IH (Z.max acc c)) as [H1 [H2 H3]]. split; [lia|]. split.
+    + intros x [<-|Hx]; [lia|auto].
+    + destruct H3 as [H3|H3]; [|right; right; exact H3].
+      destruct (Z.max_spec acc c) as [[_ E]|[_ E]]; [right; left; symmetry|left]; (etransitivity; [exact H3|exact E]).
+Qed.
+
+Lemma omap_some_inv {A B} (f : A -> option B) : forall l ys, omap f l = Some ys -> Forall2 (fun x y => f x = Some y) l ys.
+Proof.
+  induction l as [|x l IH]; cbn; intros ys H.
+  - inversion H; constructor.
+  - destruct (f x) eqn:E; [|discriminate]. destruct (omap f l) eqn:E2; [|discriminate].
+    inversion H; subst. constructor; auto.
+Qed.
+
+Lemma repeat_row_In keys row mn mx r :
+  list_min row = Some mn -> list_max row = Some mx ->
+  (In r (map (fun d => shift_row (d - mn) row) (zrange 0 (keys - mx + mn)))
+   <-> exists d, r = map (fun c => c + d) row /\ in_range_row keys r).
+Proof.
+  intros Hmn Hmx. destruct row as [|x row]; [discriminate|].
+  cbn in Hmn, Hmx. inversion Hmn as [Emn]. inversion Hmx as [Emx]. clear Hmn Hmx.
+  destruct (fold_min_facts row x) as [A1 [A2 A3]]. destruct (fold_max_facts row x) as [B1 [B2 B3]].
+  cbv zeta in *. rewrite Emn in *. rewrite Emx in *.
+  assert (Hmn_in : In mn (x :: row)) by (destruct A3; [left|right]; auto).
+  assert (Hmx_in : In mx (x :: row)) by (destruct B3; [left|right]; auto).
+  assert (Hlo : forall c, In c (x :: row) -> mn <= c <= mx).
+  { intros c [<-|Hc]; [lia|]. split; auto. }
+  rewrite in_map_iff. unfold shift_row, in_range_row. split.
+  - intros [d [<- Hd]]. apply zrange_In in Hd. exists (d - mn). split; auto.
+    apply Forall_forall. intros c Hc. apply in_map_iff in Hc. destruct Hc as [c0 [<- Hc0]].
+    specialize (Hlo c0 Hc0). lia.
+  - intros [t [-> Hr]]. exists (t + mn). split; [apply map_ext; intros; lia|].
+    apply zrange_In. rewrite Forall_forall in Hr.
+    assert (H1 : 0 <= mn + t < keys) by (apply Hr; apply in_map_iff; exists mn; auto).
+    assert (H2 : 0 <= mx + t < keys) by (apply Hr; apply in_map_iff; exists mx; auto).
+    lia.
+Qed.
+
+Theorem repeat_expand_In keys rows out :
+  repeat_expand keys rows = Some out -> forall r, In r out <-> repeat_rows keys rows r.
+Proof.
+  unfold repeat_expand, repeat_rows. destruct rows as [|row0 rows0] eqn:Er; [discriminate|]. rewrite <- Er. clear Er row0 rows0.
+  intros H r. destruct (omap _ rows) as [l|] eqn:E; [|discriminate]. cbn in H. inversion H; subst. clear H.
+  apply omap_some_inv in E. rewrite in_concat. split.
+  - intros [y0 [Hy Hr]]. revert Hy. induction E as [|row y rows l Hf E IH]; intros Hy; [destruct Hy|].
+    destruct Hy as [->|Hy].
+    + destruct (list_min row) as [mn|] eqn:Emn; [|discriminate]. destruct (list_max row) as [mx|] eqn:Emx; [|discriminate].
+      inversion Hf; subst. apply (repeat_row_In keys row mn mx r Emn Emx) in Hr. destruct Hr as [d [Hd Hrr]].
+      exists row, d. split; [left; auto|]. split; [destruct row; [discriminate|congruence]|]. auto.
+    + destruct (IH Hy) as [b [d [Hb H']]]. exists b, d. split; [right|]; auto.
+  - intros [base [d [Hb [Hne [Hd Hrr]]]]]. induction E as [|row y rows l Hf E IH]; [destruct Hb|].
+    destruct Hb as [<-|Hb].
+    + destruct (list_min row) as [mn|] eqn:Emn; [|discriminate]. destruct (list_max row) as [mx|] eqn:Emx; [|discriminate].
+      inversion Hf; subst y. eexists; split; [left; reflexivity|].
+      apply (repeat_row_In keys row mn mx r Emn Emx). exists d. auto.
+    + destruct (IH Hb) as [y' [Hy' Hr']]. exists y'. split; [right|]; auto.
+Qed.
+
+(* ---- the constructors: the array holds exactly the rows the options describe, applied in the order
+   REPEAT, HMIRROR, VMIRROR (combo); AND_HIGHER, AND_LOWER, ANY_ORDER (chord); ANY_ORDER else MIRROR (type) *)
+Theorem combo_create_rows w rows keys options excl f :
+  combo_create (In2 w rows) keys options excl = Some f ->
+  f_w f = w /\ f_keys f = keys /\ f_inv f = excl /\
+  exists rows1,
+    (if Z.testbit options 0 then forall r, In r rows1 <-> repeat_rows keys rows r else rows1 = rows) /\
+    forall r, In r (f_ar f) <->
+      In r (let rows2 := if Z.testbit options 1 then hmirror keys rows1 else rows1 in
+            if Z.testbit options 2 then vmirror rows2 else rows2).
+Proof.
+  unfold combo_create. intros H.
+  destruct (Z.testbit options 0) eqn:E0.
+  - destruct (repeat_expand keys rows) as [rows1|] eqn:Er; [|discriminate]. cbn [opt_bind] in H.
+    inversion H; subst; cbn. repeat split; auto. exists rows1. split.
+    + apply repeat_expand_In; auto.
+    + intros r. apply unique_rows_In.
+  - cbn [opt_bind] in H. inversion H; subst; cbn. repeat split; auto. exists rows. split; auto.
+    intros r. apply unique_rows_In.
+Qed.
+
+Theorem chord_create_rows w rows keys options excl f :
+  chord_create (In2 w rows) keys options excl = Some f ->
+  f_w f = w /\ f_inv f = excl /\
+  forall r, In r (f_ar f) <->
+    In r (let rows1 := if Z.testbit options 2
+                       then rows ++ cart (map (fun i => zrange i (keys + 1)) (colwise Z.min rows)) else rows in
+          let rows2 := if Z.testbit options 1
+                       then rows1 ++ cart (map (fun i => zrange 1 (i + 1)) (colwise Z.max rows1)) else rows1 in
+          if Z.testbit options 0 then flat_map perms rows2 else rows2).
+Proof.
+  unfold chord_create. intros H. destruct rows as [|row0 rows0] eqn:Er; [discriminate|]. rewrite <- Er in *.
+  destruct (Z.testbit options 2 && Z.testbit options 1 && _); [discriminate|].
+  inversion H; subst; cbn [f_w f_inv f_ar]. repeat split; auto; apply unique_rows_In.
+Qed.
+
+Lemma dedupe_t_In : forall l r, In r (dedupe_t l) <-> In r l.
+Proof.
+  induction l as [|x l IH]; cbn; intros r; [tauto|].
+  destruct (existsb (list_eqb ntype_eqb x) l) eqn:E.
+  - rewrite IH. split; auto. intros [<-|H]; auto.
+    apply existsb_exists in E. destruct E as [y [Hy He]].
+    apply (list_eqb_eq ntype_eqb ntype_eqb_eq) in He. subst; auto.
+  - cbn. rewrite IH. tauto.
+Qed.
+
+Theorem type_create_rows w rows options excl f :
+  type_create (In2 w rows) options excl = Some f ->
+  t_w f = w /\ t_inv f = excl /\
+  forall r, In r (t_ar f) <->
+    In r (if Z.testbit options 0 then flat_map perms rows
+          else if Z.testbit options 1 then vmirror rows else rows).
+Proof.
+  unfold type_create. intros H. inversion H; subst; cbn [t_w t_inv t_ar]. repeat split; auto; apply dedupe_t_In.
 Qed.
